@@ -24,7 +24,7 @@ def spec_to_json(spec: dict) -> dict:
     return out
 
 
-def rule_expectation(ns, I, spec: dict, parent_inside: bool, joint: bool = True):
+def rule_expectation(ns, I, spec: dict, parent_inside: bool, joint: bool = True, self_pairs: bool = True):
     """Violating sets of a module rule under one reading of the documentation.
 
     spec: verb, imp, exc, sk, subj, ok, obj, anything(optional)
@@ -32,7 +32,9 @@ def rule_expectation(ns, I, spec: dict, parent_inside: bool, joint: bool = True)
     are forbidden; miss = {(subject is 'sub modules of', subject, is 'any other' form):
     sorted tuple of (qualifier, object)} for required-but-missing imports.
     Readings: parent_inside - for a subject 'sub modules of X', an import X.y -> X is not
-    'something else'; joint - 'anything' with several subjects excepts all subjects jointly.
+    'something else'; joint - 'anything' with several subjects excepts all subjects jointly;
+    self_pairs - when a module is listed both as subject and as object, the pair (X, X) takes
+    part in the per-pair 'edge' requirements (imports inside X) or is skipped.
     """
     verb, imp, exc = spec["verb"], spec["imp"], spec["exc"]
     sk, subj = spec["sk"], tuple(spec["subj"])
@@ -71,12 +73,13 @@ def rule_expectation(ns, I, spec: dict, parent_inside: bool, joint: bool = True)
     q = "a sub module of " if ok == "sub" else ""
     for s in subj:
         if need_edge:
-            m = [o for o in obj if not edges(s, o)]
+            m = [o for o in obj if not edges(s, o) and (self_pairs or o != s)]
             if m:
                 miss[(sk == "sub", s, False)] = tuple(sorted((q, o) for o in m))
         if forbid_edge:
             for o in obj:
-                real |= edges(s, o)
+                if self_pairs or o != s:
+                    real |= edges(s, o)
         if need_other and not others(s):
             miss[(sk == "sub", s, True)] = tuple(sorted((q, o) for o in obj))
         if forbid_other:
@@ -88,7 +91,9 @@ def rule_readings(spec):
     """All admissible readings for a spec, as kwargs dicts."""
     pis = (True, False) if spec["sk"] == "sub" else (True,)
     js = (True, False) if spec.get("anything") and len(spec["subj"]) > 1 else (True,)
-    return [dict(parent_inside=p, joint=j) for p in pis for j in js]
+    overlap = (not spec.get("anything")) and bool(set(spec["subj"]) & set(spec.get("obj") or ()))
+    sp = (True, False) if overlap else (True,)
+    return [dict(parent_inside=p, joint=j, self_pairs=x) for p in pis for j in js for x in sp]
 
 
 def rule_three_valued(ns, I, spec):
